@@ -297,9 +297,15 @@ impl Tracker {
         let (real, added) = match res {
             Ok(x) => x,
             Err(p) => {
-                for prop in [12u8, 13, 14, 15] {
-                    s.viol.push((prop, "no-panic".into(), "action completes".into(), format!("panic: {p} @ {}", last_panic_loc())));
-                }
+                // a panic is C01's to report; here it is attributed only to the property that judges this kind of event
+                let prop = if info.position.is_some() {
+                    13u8
+                } else if info.callsign.is_some() || info.velocity.is_some() {
+                    14
+                } else {
+                    12
+                };
+                s.viol.push((prop, "no-panic".into(), "action completes".into(), format!("panic: {p} @ {}", last_panic_loc())));
                 return Some(());
             }
         };
